@@ -4,7 +4,7 @@ import ast
 from ..cfg import witness
 from ..core import AnalysisError, u, walk_local, enclosing_stmt
 from ..lib import (construct, std_facts, def_of, facts_imply, calls_of_node,
-                   in_subtree, returns_of, facts_at)
+                   in_subtree, returns_of, facts_at, all_match_form)
 from .c02 import eos, consuming_methods, CP, alternatives, indirect_callees
 from .common import instance_state
 
@@ -100,20 +100,26 @@ def run(ctx):
       e = e.args[0]
     if isinstance(e, ast.Compare) and len(e.ops) == 1 and isinstance(e.ops[0], ast.Eq) and {u(e.left), u(e.comparators[0])} == {raw, joined}:
       return 'raw_eq'
-    if isinstance(e, ast.Call) and u(e.func) == 'all' and len(e.args) == 1 and isinstance(e.args[0], (ast.GeneratorExp, ast.ListComp)) \
-        and len(e.args[0].generators) == 1 and not e.args[0].generators[0].ifs:
-      ge = e.args[0]
-      gen = ge.generators[0]
-      m = ge.elt
-      if isinstance(m, ast.Call) and isinstance(m.func, ast.Attribute) and m.func.attr == 'match' and len(m.args) == 1 \
-          and u(m.args[0]) == u(gen.target) and is_before_last(gen.iter) and re_leaves(m.func.value) == {'MODULE_RE@allow', 'IDENTIFIER_RE'}:
-        return 'scopes_match'
+    am = all_match_form(e)
+    if am is not None:
+      fn_, xs, positive = am
+      try:
+        fe = ast.parse(fn_, mode='eval').body
+      except SyntaxError:
+        return None
+      if isinstance(fe, ast.Attribute) and fe.attr == 'match' and is_before_last(xs) and re_leaves(fe.value) == {'MODULE_RE@allow', 'IDENTIFIER_RE'}:
+        return 'scopes_match' if positive else ('scopes_match', True)
       return None
-    if isinstance(e, ast.Call) and isinstance(e.func, ast.Attribute) and e.func.attr == 'match' and len(e.args) == 1 and is_last(e.args[0]) \
-        and re_leaves(e.func.value) == {'MODULE_RE'}:
-      return 'selector_match'
+    # RE.match(last)  /  RE.match(last) is not None  /  RE.match(last) is None
+    neg = False
+    m = e
+    if isinstance(e, ast.Compare) and len(e.ops) == 1 and isinstance(e.ops[0], (ast.Is, ast.IsNot)) and u(e.comparators[0]) == 'None':
+      m, neg = e.left, isinstance(e.ops[0], ast.Is)
+    if isinstance(m, ast.Call) and isinstance(m.func, ast.Attribute) and m.func.attr in ('match', 'fullmatch') and len(m.args) == 1 and is_last(m.args[0]) \
+        and re_leaves(m.func.value) == {'MODULE_RE'}:
+      return ('selector_match', True) if neg else 'selector_match'
     if isinstance(e, ast.BoolOp) and isinstance(e.op, ast.Or) and len(e.values) == 2:
-      a, b = e.values
+      a, b = [v.args[0] if isinstance(v, ast.Call) and u(v.func) == 'bool' and len(v.args) == 1 else v for v in e.values]
       if (u(a) == 'scoped' and only_one(b)) or (u(b) == 'scoped' and only_one(a)):
         return 'scoped_ok'
     return None
@@ -261,7 +267,7 @@ def run(ctx):
                   'token text is tested with `%s`, a *substring* test on a string constant: the empty text of the NEWLINE/ENDMARKER token the tokenizer '
                   'synthesises at the end of a text without trailing newline also matches, so the scanner swallows the statement terminator' % u(cmpn),
                   m.loc(cmpn), instance='membership:' + u(cmpn)[:50])
-  ctx.expect_at_least('token-text membership tests in the parser', n_in, 2)
+  ctx.expect_at_least('token-text membership tests in the parser', n_in, 1)
   instance_state(ctx, 'C03.queue', CP, {'_token_generator', '_filename', '_current_token', '_delegate', '_within_block', '_statements_queue'},
                  'parser state beyond the token cursor, the block flag and the statement queue changes how a layout is read')
 
